@@ -280,6 +280,7 @@ class Verdict:
             else:
                 unknown.append((sig, replay))
         # an open finding is reported on every run, whether or not this run's sample hit it
+        KNOWN_HITS[self.pid] = [{"id": f["id"], "reproduced_in_this_run": known_hit.get(f["id"], (f, 0))[1]} for f in opened]
         for f in opened:
             log(f"KNOWN-FINDING: property={self.pid} {f['what']}")
         rd = workdir("replay")
@@ -299,8 +300,13 @@ class Verdict:
         return len(unknown), len(seen)
 
 
+KNOWN_HITS = {}
+
+
 def write_evidence(pid, tier, seed, level, coverage, wall_s, violations, assumptions):
     os.makedirs(os.path.join(VERIF, "evidence"), exist_ok=True)
+    if KNOWN_HITS.get(pid):
+        coverage = dict(coverage, known_findings=KNOWN_HITS[pid])
     ev = {"property_id": pid, "tier": tier, "seed": int(seed), "level": level, "coverage": coverage,
           "assumptions": assumptions, "wall_s": round(wall_s, 1), "violations": int(violations)}
     json.dump(ev, open(os.path.join(VERIF, "evidence", f"{pid}.json"), "w"), indent=1, sort_keys=True)
